@@ -248,6 +248,10 @@ class CopyNative(Contract):
         for kind in ("points", "curve", "grid2d"):
             for target in ("same", "group", "other-ws", "other-ws-with-child"):
                 yield {"kind": kind, "target": target}
+        # the copy's property group is edited afterwards (its own cases: the stored copy then differs from the source on purpose)
+        for kind in ("points", "curve", "grid2d"):
+            for target in ("same", "other-ws"):
+                yield {"kind": kind, "target": target, "pg_edit": True}
         # a closed ring, copied with clear_cache=True (the source's cached arrays are released on the way)
         for target in ("same", "other-ws"):
             for parts_read in (False, True):
@@ -329,6 +333,13 @@ class CopyNative(Contract):
                     v = getattr(kid, "values", None)
                     if isinstance(v, np.ndarray) and v.dtype.kind == "f" and len(v):
                         v[: max(1, len(v) // 2)] = -999.25
+                # ... nor edits of the copy's property groups (a member added, a member taken out)
+                for pg in ((new.property_groups or [])[:1] if case.get("pg_edit") else []):
+                    outsiders = [k for k in new.children if hasattr(k, "values") and k.uid not in (pg.properties or [])]
+                    if outsiders:
+                        pg.add_properties(outsiders[0])
+                    if pg.properties:
+                        pg.remove_properties([pg.properties[0]])
                 vv = getattr(new, "vertices", None) if case["kind"] != "grid2d" else None
                 if isinstance(vv, np.ndarray) and vv.size:
                     vv[0, 0] = -999.25
@@ -347,6 +358,8 @@ class CopyNative(Contract):
                 with Workspace(dst_path, mode="r") as dws:
                     back = _snap(dws.get_entity("o")[0])
                 for k in before:
+                    if k == "property_groups" and case.get("pg_edit"):
+                        continue
                     if before[k] != back[k]:
                         return f"re-opened copy differs from its source in {k}: {back[k]} vs {before[k]} ({case})"
         finally:
